@@ -264,4 +264,10 @@ theorem validate_ok {ns ns' : List ENode} (h : validate ns = .ok ns') :
       apply hany
       exact List.any_eq_true.mpr ⟨e, he, by simp [hv]⟩
 
+/-- `DIP.parse` on the queue of logical lines: lexing every queued line, then the main loop and
+    the final validation -/
+def parseLines (P : Params) (lines : List Str) : R (List ENode) := do
+  let nds ← lines.mapM determine
+  parseNodes P nds
+
 end SciVerif.C13
